@@ -150,6 +150,16 @@ impl Scratch {
         paths.insert(ID_SECRET, p.join("out/secret"));
         for n in nodes {
             let parent = paths.get(&n.p).ok_or_else(|| format!("node {} has unknown parent {}", n.id, n.p))?.clone();
+            if n.k == "mirror" {
+                // a chain of directories below the parent that spells the host path of P (the root's parent): a lexical
+                // in-root path through it reads exactly like the host path of an object next to the root
+                let rel = p.to_string_lossy().trim_start_matches('/').to_string();
+                let path = parent.join(&rel);
+                std::fs::create_dir_all(&path).map_err(|e| format!("mirror {:?}: {e}", path))?;
+                self.pin(n.id, &path);
+                paths.insert(n.id, path);
+                continue;
+            }
             let path = parent.join(&n.n);
             let c = cstr(&path);
             let mode = n.mode.unwrap_or(if n.k == "dir" { 0o755 } else { 0o644 });
